@@ -201,7 +201,7 @@ PROPS = {
     },
     'C13': {
         'trusted': ['CRC-32C re-implemented in Lean (Blue/Model/Crc32c.lean, check value proved); agreement with the crc32c crate is observed on every manifest line of every run, not proved',
-                    'crash images are rebuilt by the harness from the op order of _apply/rollover; that order is compared with the real system calls (strace) on a sample of histories each run',
+                    'two crash streams: images rebuilt from the op order of _apply/rollover as the model has it (correspondence with ManiCrash; that order is compared with the real system calls on a sample each run), and images rebuilt from the REAL strace of each history (every prefix of the traced calls, both persistence models; the input of the oracle) — the account strace gives of the calls and the file-system simulator of the harness (fstrace.rs) are trusted',
                     'file-system model: a completed link/unlink/rename persists; file data persists at fdatasync (model b) or at write (model a)'],
         'assumptions': ['crash granularity = whole system calls (one edit = one write); a cut at an arbitrary byte is covered by torn_manifest under its NoCollision hypothesis (no proper prefix of a written line carries that line\'s CRC-32C) and by reopening the real code on truncated files',
                         'strings are what Edit accepts after the D-12/D-24 repair: non-empty ASCII without newline, not ending in CR; info keys ASCII other than newline, + and -',
